@@ -394,6 +394,9 @@ def main(latency_control, latency_buffer_size, auto_hosts, to_nameserver,
                 h = udphandlers[channel]
                 h.ok = False
                 del mux.channels[channel]
+                # forget the association now: the client may re-use
+                # the channel before the next sweep.
+                del udphandlers[channel]
 
         def udp_open(channel, data):
             debug2('Incoming UDP open.')
